@@ -15,7 +15,7 @@ from __future__ import annotations
 import json
 import random
 
-from .. import drawkit, tlc
+from .. import drawkit, tlc, vt_conf
 from ..core import Report
 from . import c06
 
@@ -125,6 +125,8 @@ def main(rep: Report, replay: dict | None) -> None:
         "(scenario, k, prefix, kind) whose fault actually fired"
     )
     rng = random.Random(rep.seed * 613 + 11)
+    if not replay:
+        vt_conf.check(rep)  # cut-off sequences are judged by the parser rules of VT.tla
     if replay:
         sc = replay["scenario"]
         jobs = [(sc["case"], sc["fault"], sc["expect"])]
